@@ -1,4 +1,5 @@
 SPECIFICATION Spec
+VIEW View
 CONSTANT Configs <- ConfigsBoth
 CONSTANT ClassNames <- ClassesABC
 CONSTANT Labels <- LabelsAll
